@@ -35,6 +35,9 @@ func c05(c *Ctx) {
 	c04R6(c)
 	c05R8(c)
 	c05R9(c)
+	// shared: the collector holds the write lock for the whole pass (C04.R2) — it cannot delete the
+	// record of an ADD acknowledged meanwhile
+	c04R2(c)
 }
 
 // R1: ADD is acknowledged only after the record is on disk.
